@@ -18,6 +18,7 @@ from refmodel import flowstep
 
 SHAPES = {2: [(12, 14), (15, 13)], 3: [(10, 11, 12), (12, 10, 11)]}
 PARAMS = [[1e-2, 1e-1, 1.7], [3e-3, 2e-2, 2.5], simcfg.DEFAULT_PARAMS]
+X_RANGES = [1.0, 2.5, 0.3]  # domain length along x (dx = x_range / nx is not 1 / nx in general)
 FILTERS = [None] + [[t, o] for t in ("multiplicative", "convolution") for o in (1, 2, 3)]
 
 
@@ -44,8 +45,19 @@ def _case_step(cfg, state, velocity, forcing, steps, seed, backend):
     # 'generic' / 'checker' fill the WHOLE grid including the outermost ring (every admissible state)
     margin = 0 if state in ("generic", "checker", "single-component") else max(1, c["width"])
     simcfg.load_state(sim, c, state, velocity, forcing, margin=margin, seed=seed)
-    dx = float(sim.dx)
     tag = f"{kind}"
+    # grid geometry from the documentation, NOT from the simulator: dx = x_range / nx (in the working
+    # precision), cell centres at (i + 1/2) dx along every axis, x along the LAST array axis
+    dx = float(real_t(c["x_range"] / c["shape"][-1]))
+    if float(sim.dx) != dx:
+        fails.append(Fail(f"{tag}:grid-spacing", "simulator grid spacing is not x_range / grid_size_x in the working precision", got=float(sim.dx), want=dx, cfg=c))
+    pos = np.asarray(sim.position_field, dtype=np.float64)
+    for ax in range(d):  # component ax of position_field varies along array axis d-1-ax
+        want = (np.arange(c["shape"][d - 1 - ax]) + 0.5) * (c["x_range"] / c["shape"][-1])
+        got_ax = np.moveaxis(pos[ax], d - 1 - ax, -1)
+        if pos.shape != (d, *c["shape"]) or not np.all(np.abs(got_ax - want) <= 8 * eps * c["x_range"] * max(c["shape"]) / c["shape"][-1]):
+            fails.append(Fail(f"{tag}:grid-coordinates", "cell-centre coordinate field is not (i + 1/2) dx along the documented axis", component=ax, cfg=c))
+            break
     t_expected = float(sim.time)
     second = None
     if isinstance(steps, str):  # "2:single" / "2:zero": the second step starts from a re-loaded state
@@ -156,19 +168,19 @@ def lattice_cases(tier, seed):
     out = []
     dev = {"quick": 2, "dev1": 1}.get(tier, 3)
     pat = {"state": simcfg.STATE_PATTERNS, "velocity": simcfg.VELOCITY_PATTERNS}
-    ns_common = {"dtype": ["float64", "float32"], "forcing": [True, False], "stream": [True, False], "stream_kind": simcfg.STREAM_KINDS, "width": [2, 0, 1, 3, 4], "params": PARAMS,
+    ns_common = {"dtype": ["float64", "float32"], "forcing": [True, False], "stream": [True, False], "stream_kind": simcfg.STREAM_KINDS, "width": [2, 0, 1, 3, 4], "params": PARAMS, "x_range": X_RANGES,
                  "steps": [1, 2, "2:single", "2:zero"], **pat, "forcing_pat": simcfg.FORCING_PATTERNS}
     kinds = {
         "ns2d": {**ns_common, "shape": SHAPES[2]},
         "ns3d": {**ns_common, "shape": SHAPES[3], "filter": FILTERS, "poisson": ["greens", "fastdiag"]},
-        "pt2d": {"dtype": ["float64", "float32"], "params": PARAMS, "steps": [1, 2, "2:single", "2:zero"], **pat, "shape": SHAPES[2]},
-        "pt3ds": {"dtype": ["float64", "float32"], "params": PARAMS, "steps": [1, 2, "2:single", "2:zero"], **pat, "shape": SHAPES[3]},
-        "pt3dv": {"dtype": ["float64", "float32"], "params": PARAMS, "steps": [1, 2, "2:single", "2:zero"], **pat, "shape": SHAPES[3]},
+        "pt2d": {"dtype": ["float64", "float32"], "params": PARAMS, "x_range": X_RANGES, "steps": [1, 2, "2:single", "2:zero"], **pat, "shape": SHAPES[2]},
+        "pt3ds": {"dtype": ["float64", "float32"], "params": PARAMS, "x_range": X_RANGES, "steps": [1, 2, "2:single", "2:zero"], **pat, "shape": SHAPES[3]},
+        "pt3dv": {"dtype": ["float64", "float32"], "params": PARAMS, "x_range": X_RANGES, "steps": [1, 2, "2:single", "2:zero"], **pat, "shape": SHAPES[3]},
     }
     for kind, axes in kinds.items():
         for pt in explore.lattice(axes, dev):
             cfg = {"kind": kind, "dtype": pt["dtype"], "params": pt["params"], "shape": pt["shape"]}
-            for k in ("forcing", "stream", "stream_kind", "width", "filter", "poisson"):
+            for k in ("forcing", "stream", "stream_kind", "width", "filter", "poisson", "x_range"):
                 if k in pt:
                     cfg[k] = pt[k]
             out.append(dict(cfg=cfg, state=pt["state"], velocity=pt["velocity"], forcing=pt.get("forcing_pat", "none"), steps=pt["steps"], seed=seed))
@@ -208,7 +220,7 @@ def run(r) -> None:
         jit_cases = [dict(c, backend="jit") for c in lattice_cases_dev1(r.seed)]
         r.run_cases("step-lattice-jit", "step", jit_cases, chunksize=6)
         r.extra["jit_traces"] = len(jit_cases)
-    r.bounds = {"deviation": 2 if r.tier == "quick" else 3, "cases": len(cases), "shapes": SHAPES, "params": PARAMS, "filters": FILTERS,
+    r.bounds = {"deviation": 2 if r.tier == "quick" else 3, "cases": len(cases), "shapes": SHAPES, "params": PARAMS, "filters": FILTERS, "x_ranges": X_RANGES,
                 "widths": [0, 1, 2, 3, 4], "state_patterns": simcfg.STATE_PATTERNS, "velocity_patterns": simcfg.VELOCITY_PATTERNS, "forcing_patterns": simcfg.FORCING_PATTERNS, "steps": [1, 2, "2 with the second step re-loaded with a single non-zero component", "2 with the second step from the all-zero field"]}
     r.extra["rule"] = "one state per executed time step of each (configuration, pattern, history length) tuple of the deviation-bounded lattice; every step compared cell by cell with the independent reference"
     r.assumptions = ["small-scope: field values from finite pattern alphabets on grids of ~12 cells a side", "kernels on the interpreter back end, bound to the generated code by conformance replay",
